@@ -49,6 +49,8 @@ pub enum Site {
     TextHeader,
     BinHeader,
     Prepare { id: u32, params: Vec<ColGen> },
+    /// `n` earlier PREPAREs (ids 1..=n, left open) on the same connection, then the PREPARE under test
+    PrepareAfterMany { n: u32, id: u32, params: Vec<ColGen> },
 }
 
 #[derive(Clone, Debug, Serialize, Deserialize)]
@@ -170,13 +172,21 @@ impl Prop for C09 {
                 v.push(Case { cols: vec![small.clone()], site: Site::Prepare { id: 7, params: vec![big.clone(), small.clone()] } });
             }
         }
+        // "all statement ids": a reply on a connection that already has many statements open
+        let small = ColGen { table: NameSpec::Lit("t".into()), name: NameSpec::Lit("c".into()), coltype: T_VAR_STRING, flags: 1 };
+        for &n in &[16_381u32, 16_382, 16_383, 20_000] {
+            if tier == Tier::Quick && n == 16_381 {
+                continue;
+            }
+            v.push(Case { cols: vec![small.clone(), small.clone()], site: Site::PrepareAfterMany { n, id: n + 7, params: vec![small.clone()] } });
+        }
         v
     }
     fn exec(&self, case: &Case) -> Exec {
         let mut ex = Exec::default();
         let cols: Vec<ColSpec> = case.cols.iter().map(spec).collect();
         let all: Vec<&ColGen> = match &case.site {
-            Site::Prepare { params, .. } => case.cols.iter().chain(params.iter()).collect(),
+            Site::Prepare { params, .. } | Site::PrepareAfterMany { params, .. } => case.cols.iter().chain(params.iter()).collect(),
             _ => case.cols.iter().collect(),
         };
         if all.len() > 250 {
@@ -213,6 +223,20 @@ impl Prop for C09 {
                     ),
                     1,
                 )
+            }
+            Site::PrepareAfterMany { n, id, params } => {
+                ex.class("site:prepare-reply-after-many-open-statements");
+                ex.nontrivial = true;
+                let mut cmds = Vec::new();
+                let mut actions = Vec::new();
+                for k in 1..=*n {
+                    cmds.push(Cmd::Prepare { text: Blob::text("p") });
+                    actions.push(Action::Prepare(PrepProg::Reply { id: k, params: vec![], cols: vec![] }));
+                }
+                cmds.push(Cmd::Prepare { text: Blob::text("the one") });
+                actions.push(Action::Prepare(PrepProg::Reply { id: *id, params: params.iter().map(spec).collect(), cols: cols.clone() }));
+                cmds.push(Cmd::Ping);
+                (Conversation::new(cmds, actions), *n as usize)
             }
             Site::Prepare { id, params } => {
                 ex.class("site:prepare-reply");
